@@ -7,7 +7,8 @@ import PdfModel.Lemmas.ShiftParser
   parsers as functions of the suffix they are handed.)
 -/
 
-namespace PdfLex
+namespace PdfShift
+open PdfLex
 
 variable {R : Type}
 
@@ -271,4 +272,4 @@ theorem parseCtx_offset (env : Env R) (k : Nat) (buf : Buf) (fuel pos : Nat) (ct
     parseCtx (env.shiftOffset k) buf fuel pos ctx flags depth = omap (mapV k) (parseCtx env buf fuel pos ctx flags depth) :=
   (offsets env k buf fuel).ctx pos ctx flags depth
 
-end PdfLex
+end PdfShift
